@@ -19,6 +19,7 @@ type mixedParams struct {
 	ReadsInTx  bool // allow read ops inside write transactions
 	Fill       bool
 	NoSPop     bool // SPop may return any member, so differential checks do not generate it
+	FaultPct   int  // per cent of multi-call transactions whose Commit gets an injected write error (both twins get the same one)
 	MultiKV    int  // > 1: some transactions consist of 2..MultiKV key/value writes spread over the buckets
 }
 
@@ -84,6 +85,10 @@ func genMixedCase(p mixedParams) *rapid.Generator[Case] {
 				}
 				if len(st.Ops) == 0 {
 					st.Ops = append(st.Ops, genKVWrite(buckets, kvKeys, false).Draw(t, "kvop"))
+				}
+				if p.FaultPct > 0 && len(st.Ops) >= 2 && rapid.IntRange(0, 99).Draw(t, "faulty") < p.FaultPct {
+					// an I/O error while writing record At (with Partial bytes of it written): the records before it stay on disk, uncommitted
+					st.Fault = &Fault{Kind: "write", At: rapid.IntRange(0, 3).Draw(t, "faultat"), Partial: rapid.SampledFrom([]int{0, 7, 43}).Draw(t, "faultpartial")}
 				}
 				c.Steps = append(c.Steps, st)
 			}
